@@ -129,6 +129,9 @@ func (c *Ctx) Violate(cs Case) {
 
 var props = map[string]func(*Ctx) error{}
 
+// auxiliary developer commands: vh <cmd> <arg>
+var cmds = map[string]func(args []string){}
+
 func hexs(b []byte) string {
 	if len(b) == 0 {
 		return "-"
@@ -155,6 +158,10 @@ func main() {
 	cmd, prop := os.Args[1], os.Args[2]
 	if cmd == "worker" {
 		runWorker()
+		return
+	}
+	if f, ok := cmds[cmd]; ok {
+		f(os.Args[2:])
 		return
 	}
 	fs := flag.NewFlagSet("vh", flag.ExitOnError)
